@@ -149,4 +149,21 @@ def putErr (minAccepted : Nat) (st : St) : Bool := st.accepted < (if minAccepted
 /-- `HandleFindNode` caps the number of nodes it returns -/
 def findNodeLimit (reqLimit : Nat) : Nat := if reqLimit > 10 then 10 else reqLimit
 
+/-- the four operations, uniformly -/
+inductive Oper
+  | findNode (target : Bytes) (validate : NodeInfo → Bool)
+  | join (target : Bytes)
+  | get (key : Bytes) (validate : Bytes → Bool)
+  | put (key : Bytes)
+
+def Oper.run (o : Oper) (fuel : Nat) (initial : List NodeInfo) (ask : Responder) : Option St :=
+  match o with
+  | .findNode t v => DHT.findNode fuel initial t v ask
+  | .join t => DHT.join fuel initial t ask
+  | .get k v => DHT.get fuel initial k v ask
+  | .put k => DHT.put fuel initial k ask
+
+def Oper.key : Oper → Bytes
+  | .findNode t _ => t | .join t => t | .get k _ => k | .put k => k
+
 end P2PVerif.DHT
